@@ -14,6 +14,7 @@ import (
 	"net/http/httptest"
 	"os"
 	"strings"
+	"sync"
 	"testing"
 	"time"
 
@@ -216,7 +217,10 @@ func TestCases(t *testing.T) {
 	agg := statsd.NewMetricAggregator([]float64{90, -90}, -1, -1, -1, -1, gostatsd.TimerSubtypes{}, 2)
 	downstream := ""
 	merges := 0
+	var aggMu sync.Mutex // an aggregator belongs to one worker goroutine in the server; here requests may overlap
 	h.OnMap = func(mm *gostatsd.MetricMap) {
+		aggMu.Lock()
+		defer aggMu.Unlock()
 		defer func() {
 			if x := recover(); x != nil {
 				downstream = fmt.Sprint(x)
@@ -238,6 +242,7 @@ func TestCases(t *testing.T) {
 	seed := vh.Seed()
 	mutations := vh.EnvInt("VERIF_MUTATIONS", 2)
 	every := vh.EnvInt("VERIF_EVERY", 1)
+	wedged := false
 	do := func(r req, b []byte) (status int, nm, ne int, panicked string) {
 		defer func() {
 			if x := recover(); x != nil {
@@ -254,7 +259,27 @@ func TestCases(t *testing.T) {
 		}
 		rec := httptest.NewRecorder()
 		rec.Code = 0
-		srv.Router.ServeHTTP(rec, hr.WithContext(context.Background()))
+		// a request that is never answered must not hang the check: it is given a generous real-time limit
+		done := make(chan string, 1)
+		go func() {
+			defer func() {
+				if x := recover(); x != nil {
+					done <- fmt.Sprint(x)
+					return
+				}
+				done <- ""
+			}()
+			srv.Router.ServeHTTP(rec, hr.WithContext(context.Background()))
+		}()
+		select {
+		case p := <-done:
+			if p != "" {
+				return 0, 0, 0, p
+			}
+		case <-time.After(time.Duration(vh.EnvInt("VERIF_WEDGE_S", 20)) * time.Second):
+			wedged = true
+			return -1, 0, 0, ""
+		}
 		maps, evs := h.Take()
 		return rec.Code, len(maps), len(evs), ""
 	}
@@ -262,6 +287,9 @@ func TestCases(t *testing.T) {
 		var c hcase
 		if err := json.Unmarshal(raw, &c); err != nil {
 			return err
+		}
+		if wedged {
+			return nil // the endpoint has stopped answering: reported once, nothing more can be learned from it
 		}
 		if len(c.Reqs) > 1 && (idx+int(seed))%every != 0 { // quick tier: every single request, a seeded share of the pairs
 			return nil
@@ -293,6 +321,10 @@ func TestCases(t *testing.T) {
 					res.Fail("C03", "accepted-payload-crashes-aggregation", fmt.Sprintf("a payload answered with %d crashed the aggregator behind the endpoint: %s", status, downstream), rc)
 					downstream = ""
 				}
+				if status == -1 {
+					res.Fail("C03", "http-wedged:"+cls, "the request was not answered within the time limit: the endpoint is wedged", rc)
+					return nil
+				}
 				if status == 0 {
 					res.Fail("C03", "http-no-status:"+cls, "request was not answered with a status", rc)
 					continue
@@ -322,6 +354,10 @@ func TestCases(t *testing.T) {
 		}
 		// after any sequence a valid request still succeeds
 		status, nm, _, pan := do(req{Ep: "raw"}, rawProto(rng))
+		if status == -1 {
+			res.Fail("C03", "http-wedged:later-request", "a valid request after the sequence was not answered within the time limit", map[string]any{"case": idx})
+			return nil
+		}
 		if pan != "" || status != 202 || nm != 1 {
 			res.Fail("C03", "http-later-request-fails", fmt.Sprintf("valid request after the sequence: status %d dispatches %d panic %q", status, nm, pan), map[string]any{"case": idx})
 		}
@@ -332,6 +368,44 @@ func TestCases(t *testing.T) {
 	})
 	if err != nil {
 		t.Fatal(err)
+	}
+	if !wedged {
+		// requests overlap in production: every kind of request from several clients at once (a data race on the handlers' shared
+		// state ends the process with a fatal error, which the pipeline attributes)
+		kinds := []struct {
+			ep, enc string
+			body    []byte
+		}{
+			{"raw", "", rawProto(vh.NewRng(seed, 1))}, {"raw", "br", []byte("x")}, {"event", "x-unknown", []byte("y")}, {"raw", "deflate", []byte{0x01}},
+			{"raw", "deflate", nil}, {"raw", "lz4", []byte{0x04, 0x22}}, {"event", "", []byte{0x50, 0x07}}, {"raw", "gzip", []byte("zz")},
+		}
+		var wg sync.WaitGroup
+		answered := make(chan struct{})
+		for g := 0; g < 8; g++ {
+			wg.Add(1)
+			go func(g int) {
+				defer wg.Done()
+				for i := 0; i < 400; i++ {
+					k := kinds[(g+i)%len(kinds)]
+					hr := httptest.NewRequest("POST", "/v2/"+k.ep, bytes.NewReader(k.body))
+					if k.enc != "" {
+						hr.Header.Set("Content-Encoding", k.enc)
+					}
+					func() {
+						defer func() { recover() }()
+						srv.Router.ServeHTTP(httptest.NewRecorder(), hr)
+					}()
+				}
+			}(g)
+		}
+		go func() { wg.Wait(); close(answered) }()
+		select {
+		case <-answered:
+			res.Hit("concurrent-requests")
+		case <-time.After(60 * time.Second):
+			res.Fail("C03", "http-wedged:concurrent", "overlapping requests were not all answered within the time limit", nil)
+		}
+		h.Take()
 	}
 	res.Distinct = res.Evaluations / (mutations + 1)
 }
